@@ -35,11 +35,11 @@ ASSUMPTIONS = [
     'numeric coefficients only (int / float / complex); sympy coefficients are not modelled',
     'operators are in the state their class maintains (QubitOperator terms index-sorted, BosonOperator / QuadOperator terms index-sorted by the constructor, Majorana terms strictly increasing); `terms` dictionaries edited by hand into other shapes are out of scope',
     'comparisons whose decision has a relative margin < 1e-9 (where double rounding of abs / multiplication could matter) are discarded and counted, never compared',
-    'is_hermitian of InteractionOperator / sparse matrices / numpy arrays is not covered here (numeric kernels)',
+    'is_hermitian of sparse matrices / numpy arrays is not covered here (numeric kernels); InteractionOperator is covered (Model tie + Spec oracle, no theorem)',
 ]
 OPEN_STATEMENTS = [
     'commutes_with general path (self*other == other*self): the denotation of the Model product mmul is a C01 statement; here the shortcut is proved equivalent both to the Model products being equal and to commutation in the Spec (majorana_terms_commute_iff); operators with several terms are covered by the spec.eq oracle',
-    'is_hermitian: proved for FermionOperator (is_hermitian_fermion_iff: Hermitian in the Spec <=> the two normal-ordered dictionaries have equal coefficients; completeness of the coded test in the exact regime); for BosonOperator / QubitOperator / QuadOperator only the Model tie and the Spec oracle; for QuadOperator the implementation is incomplete (known finding F02e)',
+    'is_hermitian: proved for FermionOperator (is_hermitian_fermion_iff: Hermitian in the Spec <=> the two normal-ordered dictionaries have equal coefficients; completeness of the coded test in the exact regime); for BosonOperator / QubitOperator / QuadOperator / InteractionOperator only the Model tie and the Spec oracle (InteractionOperator: non-symmetrised storage of Hermitian operators is generated on purpose); for QuadOperator the implementation is incomplete (known finding F02e)',
     'float rounding inside abs()/hypot and tol*max(..) is outside the Model (guarded by the 1e-9 margin rule)',
 ]
 
@@ -941,6 +941,149 @@ def stream_hermitian(ctx):
     return s
 
 
+# ---------------------------------------------------------------- is_hermitian(InteractionOperator)
+
+def io_fermion_items(n, const, one, two):
+    """the FermionOperator an InteractionOperator denotes (docstring formula), as spelled terms"""
+    items = []
+    if const != 0:
+        items.append(((), complex(const)))
+    for p in range(n):
+        for q in range(n):
+            if one[p, q] != 0:
+                items.append((((p, 1), (q, 0)), complex(one[p, q])))
+    for p, q, r, t in itertools.product(range(n), repeat=4):
+        if two[p, q, r, t] != 0:
+            items.append((((p, 1), (q, 1), (r, 0), (t, 0)), complex(two[p, q, r, t])))
+    return items
+
+
+def stream_hermitian_io(ctx):
+    of = ctx.of
+    is_hermitian = of.utils.operator_utils.is_hermitian
+    hc = of.utils.operator_utils.hermitian_conjugated
+    s = Stream('is-hermitian-interaction', 'InteractionOperators on 2-4 modes with dyadic complex tensors: Hermitian operators '
+               'stored NON-symmetrised (S + S^dagger followed by gauge moves T[pqrs] += x, T[qprs] += x / T[pqsr] += x, junk on '
+               'p=q or r=s, upper-triangular storage, single entries such as T[0,1,0,1]), entry-wise Hermitian tensors, and '
+               'non-Hermitian controls (random tensors, one entry perturbed, complex constant, non-Hermitian one-body part); '
+               'oracle: the denoted fermion operator equals its adjoint in the Spec (spec.eq on all 2^n Fock states); Model: '
+               'normal_ordered both sides + PolynomialTensor.__eq__; tensor classes other than InteractionOperator must raise TypeError')
+    rng = rng_for(ctx.seed, 'c02-herm-io')
+    n_cases = budget(ctx.tier, 150, 2500)
+    if ctx.drift:
+        n_cases = max(n_cases, 600)
+
+    def dag2(T):
+        return numpy.conj(numpy.transpose(T, (3, 2, 1, 0)))
+
+    def rnd(shape, dens):
+        size = int(numpy.prod(shape))
+        v = [dyadic(rng, max_num=4, max_pow=1, complex_p=0.5) if rng.random() < dens else 0.0 for _ in range(size)]
+        return numpy.array(v, dtype=complex).reshape(shape)
+
+    fixed = []
+    # the witnesses of the seeded defect
+    t = numpy.zeros((2,) * 4, dtype=complex); t[0, 1, 0, 1] = 1.0
+    fixed.append((2, 0.0, numpy.zeros((2, 2), dtype=complex), t, 'single-entry'))
+    t = numpy.zeros((4,) * 4, dtype=complex); t[0, 1, 2, 3] = 1j; t[2, 3, 1, 0] = 1j
+    fixed.append((4, 0.0, numpy.zeros((4, 4), dtype=complex), t, 'two-entries'))
+    t = numpy.zeros((3,) * 4, dtype=complex); t[0, 1, 1, 2] = 2.0; t[1, 2, 0, 1] = 2.0
+    fixed.append((3, 1.5, numpy.zeros((3, 3), dtype=complex), t, 'two-entries'))
+    rows = []
+    todo = list(fixed)
+    for _ in range(n_cases):
+        n = rng.choice([2, 2, 3, 3, 4])
+        kind = rng.choice(['gauge', 'gauge', 'gauge', 'upper', 'symmetric', 'random', 'perturbed', 'bad-one-body', 'bad-constant'])
+        S = rnd((n,) * 4, rng.choice([0.1, 0.3, 0.7]))
+        two = S + dag2(S)
+        M = rnd((n, n), 0.6)
+        one = M + M.conj().T
+        const = dyadic(rng, max_num=4, max_pow=1, complex_p=0.0)
+        if kind in ('gauge', 'perturbed', 'bad-one-body', 'bad-constant'):
+            for _k in range(rng.choice([1, 2, 4, 8])):
+                p, q, r, u = (rng.randrange(n) for _x in range(4))
+                x = dyadic(rng, max_num=4, max_pow=1, complex_p=0.5)
+                m = rng.random()
+                if m < 0.4:
+                    two[p, q, r, u] += x; two[q, p, r, u] += x          # a^p a^q = -a^q a^p
+                elif m < 0.8:
+                    two[p, q, r, u] += x; two[p, q, u, r] += x          # a_r a_s = -a_s a_r
+                elif m < 0.9:
+                    two[p, p, r, u] += x                                # a^p a^p = 0
+                else:
+                    two[p, q, r, r] += x
+        if kind == 'upper':
+            up = numpy.zeros_like(two)
+            for p, q, r, u in itertools.product(range(n), repeat=4):
+                if p < q and r < u:
+                    up[p, q, r, u] = two[p, q, r, u] - two[q, p, r, u] - two[p, q, u, r] + two[q, p, u, r]
+            two = up
+        if kind == 'random':
+            two = rnd((n,) * 4, 0.3)
+        if kind == 'perturbed':
+            idx = tuple(rng.randrange(n) for _x in range(4))
+            two[idx] += rng.choice([1.0, 0.5j, -2.0])
+        if kind == 'bad-one-body':
+            one[rng.randrange(n), rng.randrange(n)] += rng.choice([1j, 0.5, 1 + 1j])
+        if kind == 'bad-constant':
+            const = complex(const, rng.choice([1.0, -0.5]))
+        todo.append((n, const, one, two, kind))
+    for n, const, one, two, kind in todo:
+        case = {'n': n, 'kind': kind, 'constant': to_gq(const), 'one_body': [to_gq(x) for x in one.reshape(-1)],
+                'two_body': [to_gq(x) for x in two.reshape(-1)]}
+        try:
+            io = of.InteractionOperator(const, one.copy(), two.copy())
+            r = is_hermitian(io)
+            h = hc(io)
+            unchanged = numpy.array_equal(io.two_body_tensor, two) and numpy.array_equal(io.one_body_tensor, one)
+            hc_one = [to_gq(x) for x in h.one_body_tensor.reshape(-1)]
+            hc_two = [to_gq(x) for x in h.two_body_tensor.reshape(-1)]
+        except Exception as e:  # noqa
+            s.violate('is_hermitian(InteractionOperator) raised %s' % type(e).__name__, case, {'error': repr(e)})
+            continue
+        if not unchanged:
+            s.violate('is_hermitian(InteractionOperator) modified its argument', case, {})
+        rows.append((case, n, const, one, two, bool(r), hc_one, hc_two))
+    reqs = []
+    for case, n, const, one, two, r, hc_one, hc_two in rows:
+        items = dict()
+        for t, c in io_fermion_items(n, const, one, two):
+            items[t] = items.get(t, 0) + c
+        a = enc_raw('fermion', items)
+        ad = enc_raw('fermion', dagger('fermion', items))
+        reqs.append({'op': 'spec.eq', 'alg': 'fermion', 'n': n, 'lhs': ['leaf', a], 'rhs': ['leaf', ad]})
+        reqs.append({'op': 'c02.hermitian_io', 'n': n, 'constant': case['constant'], 'one_body': case['one_body'],
+                     'two_body': case['two_body']})
+    ans = ctx.driver.run(reqs)
+    for i, (case, n, const, one, two, r, hc_one, hc_two) in enumerate(rows):
+        eq, m = ans[2 * i], ans[2 * i + 1]
+        s.case(case)
+        s.count('%s:impl=%s:spec=%s' % (case['kind'], r, eq['eq']))
+        if m['model'] != r:
+            s.disagree('is_hermitian(InteractionOperator)', case, r, m['model'])
+        if [tuple(x) for x in m['hc_one']] != [tuple(x) for x in hc_one] or \
+                [tuple(x) for x in m['hc_two']] != [tuple(x) for x in hc_two]:
+            s.disagree('hermitian_conjugated(InteractionOperator)', case, {'one': hc_one, 'two': hc_two},
+                       {'one': m['hc_one'], 'two': m['hc_two']})
+        if eq['eq'] != r:
+            s.violate('is_hermitian(InteractionOperator) differs from A = A^dagger in the Spec', case,
+                      {'implementation': r, 'spec': eq['eq'], 'witness_state': eq.get('state')})
+    # other tensor classes are not supported: TypeError
+    z2, z4 = numpy.zeros((2, 2)), numpy.zeros((2, 2, 2, 2))
+    for name, obj in (('InteractionRDM', lambda: of.InteractionRDM(z2, z4)),
+                      ('QuadraticHamiltonian', lambda: of.QuadraticHamiltonian(z2)),
+                      ('PolynomialTensor', lambda: of.PolynomialTensor({(1, 0): z2}))):
+        s.case({'unsupported': name}, nontrivial=False)
+        try:
+            is_hermitian(obj())
+            s.violate('is_hermitian(%s) did not raise TypeError' % name, {'class': name}, {})
+        except TypeError:
+            pass
+        except Exception as e:  # noqa
+            s.violate('is_hermitian(%s) raised %s' % (name, type(e).__name__), {'class': name}, {'error': repr(e)})
+    return s
+
+
 # ---------------------------------------------------------------- known findings
 
 def classify(v):
@@ -981,4 +1124,4 @@ def probe_known(ctx, k):
 
 def run(ctx):
     return [stream_isclose(ctx), stream_majorana_eq(ctx), stream_commutes(ctx), stream_predicates(ctx),
-            stream_identity(ctx), stream_tensor_eq(ctx), stream_hermitian(ctx)]
+            stream_identity(ctx), stream_tensor_eq(ctx), stream_hermitian(ctx), stream_hermitian_io(ctx)]
